@@ -699,7 +699,11 @@ def rule_builder_frame(cad, rep, adt, setters, rid='builder', value_only=False, 
                 and type_head(b.locals[0]) == adt):
             continue
         rep.analysed(b)
-        T = Terms(b)
+        # other setters of the same builder that this one goes through are inlined (`with_capacity_opt` -> `with_capacity`)
+        try:
+            T = Terms(inl(cad, b, only=lambda x: bool(x.impl_self) and type_head(x.impl_self) == adt and x.impl_trait is None))
+        except Exception:
+            T = Terms(b)
         rts = ret_terms(T, [0])
         changed = set()
         okshape = True
@@ -730,6 +734,23 @@ def rule_builder_frame(cad, rep, adt, setters, rid='builder', value_only=False, 
         exp = setters.get(b.name)
         if protect is not None and okshape and (exp is None or exp[0] != protect):
             keeps = protect not in changed
+            if not keeps and b.arg_count == 2:
+                # a second setter for the very same field (`with_capacity_opt(Option<usize>)`): the new value is its own
+                # argument - as it is, its Some payload re-wrapped, or None where the argument is None
+                v_ = vals.get(protect)
+                def from_arg(v):
+                    v = norm(v)
+                    if v[0] == 'phi':
+                        return all(from_arg(x) for x in v[1])
+                    if v == ('param', 2):
+                        return True
+                    if v[0] == 'adt' and v[2] == 'None' and b.locals[2].replace(' ', '').startswith('core::option::Option<'):
+                        return True
+                    if v[0] == 'adt' and v[2] == 'Some' and len(v[3]) == 1:
+                        w = norm(v[3][0][1])
+                        return w == ('param', 2) or (w[0] == 'field' and w[1][0] == 'payload' and w[1][1] == ('param', 2) and w[1][2] == 'Some')
+                    return False
+                keeps = v_ is not None and from_arg(v_)
             rep.ob(rid, '%s::%s/keeps-%s' % (short, b.name, protect_label or protect), keeps, b.where(),
                    '%s carries the configured `%s` over' % (b.name, protect) if keeps else
                    'builder method %s loses/overwrites the configured `%s`' % (b.name, protect))
